@@ -259,7 +259,10 @@ class G:
                     lo = self.d(st.sampled_from(lows))
                     up = self.d(st.sampled_from(ups + [None]))
                     frame = [unit, lo, up]
-                if not joins or wname in ("RANK", "SUM", "MAX"):
+                if frame and self.d(st.integers(0, 4)) == 0:
+                    # the frame alone: neither over() nor orderby() is called, and the whole-partition frame keeps the result order-free
+                    items.append({"e": ["win", wname, warg, [], [], [unit, ["preceding", None], ["following", None]], "bare"], "alias": self.alias("w"), "type": "int"})
+                elif not joins or wname in ("RANK", "SUM", "MAX"):
                     items.append({"e": ["win", wname, warg, [part] if self.d(st.booleans()) else [], orders, frame], "alias": self.alias("w"), "type": "int"})
         where = self.be(scope, 2, allow_sub=depth > 0) if self.d(st.integers(0, 9)) < 6 else None
         distinct = (not grouped) and (not aggonly) and self.d(st.integers(0, 5)) == 0 and not any(it["e"][0] == "win" for it in items)
@@ -468,7 +471,8 @@ def P_expr(e, left=False):
         name, arg, part, orders = e[1:5]
         frame = e[5] if len(e) > 5 else None
         node = ["an", WIN[name], [P_expr(arg, True)] if arg is not None else []]
-        node = ["call", node, "over", [P_expr(p, True) for p in part]]
+        if not (len(e) > 6 and e[6] == "bare"):
+            node = ["call", node, "over", [P_expr(p, True) for p in part]]
         for oe, od in orders:
             node = ["call", node, "orderby", [P_expr(oe, True)], ({"order": ["enum", "Order", od]} if od else {})]
         if frame:
@@ -889,6 +893,8 @@ def feature(sa):
     if sa.get("shadow"):
         return "alias_shadows_column:" + sa["shadow"]
     wins = [it["e"] for it in sa["items"] if it["e"][0] == "win"]
+    if any(len(w) > 6 for w in wins):
+        return "window_frame_alone"
     if any(len(w) > 5 and w[5] for w in wins):
         return "window_frame"
     if wins:
@@ -997,6 +1003,8 @@ def run_shard(shard):
                 classes.append("has:having_without_group")
             if any(it["e"][0] == "win" and len(it["e"]) > 5 and it["e"][5] for it in sa["items"]):
                 classes.append("has:window_frame")
+            if any(it["e"][0] == "win" and len(it["e"]) > 6 for it in sa["items"]):
+                classes.append("has:window_frame_alone")
             if any(it["e"][0] == "win" for it in sa["items"]):
                 classes.append("has:window")
             if '"insub"' in json.dumps(sa):
